@@ -211,7 +211,7 @@ def oracle_c08(line, itoks):
                 if key not in seen_tx:
                     seen_tx.add(key)
                     first_tx[key[0]].append(key[1])
-        if f[0] == "s":
+        if f[0] in ("s", "S"):
             s, con, mid = int(f[1]), f[2] == "c", int(f[3])
             accepted = any(SUB.match(t) and t != "sub=rej" for t in ts)
             if accepted and con:
@@ -235,6 +235,15 @@ def oracle_c08(line, itoks):
                 order[s] = [m for m in order[s] if m not in held]
             est[s] = True
             opened[s] = False
+        # `i:S` (ICMP error) and `k:SECS` (keepalive) change nothing the property talks about: the per-event checks above
+        # and below apply to them as to every event
+        for s in range(len(sess)):
+            # "held and later transmitted as earlier exchanges finish": on an established session a message waits only
+            # while NSTART Confirmables are in flight (a keepalive ping is one of them)
+            infl = sum(1 for n in q if n[0] == s)
+            if est[s] and opened[s] and s < len(dq) and dq[s] > 0 and infl < sess[s][5]:
+                return "after `%s`: session %d is established and holds %d message(s) although only %d of NSTART=%d Confirmables are in flight" % (
+                    ev, s, dq[s], infl, sess[s][5])
     for s in range(len(sess)):
         sub_once = [m for m in order[s] if order[s].count(m) == 1]
         ft = [m for m in first_tx[s] if m in sub_once]
@@ -324,6 +333,104 @@ def gen_scenario(rng, flavor):
     evs.append("g:3000")
     if with_hold:
         evs += ["u:%d" % s for s in range(ns)] + ["g:3000"]
+    return "msg %s %s %s" % (",".join(sess), ",".join(fates) if fates else "-", " ".join(evs))
+
+
+def gen_scenario_x(rng, flavor=None):
+    """one `msg` line using the events of the extended model (Driver/Msg.lean, Model/MsgLayerX.lean):
+    `S:` submissions that share a token (so that one separate response cancels several outstanding Confirmables),
+    `i:` ICMP errors while Confirmables are in flight or held, `k:` keepalive (library-generated empty Confirmables
+    taking an NSTART slot, answered by RST = "pong", by ACK, or lost) - alone and mixed, with everything gen_scenario()
+    does around them.  Message ids stay clear of the ids the library gives its pings (1, 2, …)."""
+    flavor = flavor or rng.choice(["tok", "tok", "icmp", "ka", "ka", "mix"])
+    tokf, icmpf, kaf = flavor in ("tok", "mix"), flavor in ("icmp", "mix"), flavor in ("ka", "mix")
+    ns = rng.choice([1, 1, 2, 2, 3])
+    params = []
+    for i in range(ns):
+        p = rand_params(rng)
+        nstart = rng.choice([1, 2, 2, 3, 4]) if tokf and not kaf else rng.choice([1, 1, 2, 3, 4])
+        params.append(p + (nstart,))
+    sess = [sess_word(p[:5], p[5]) for p in params]
+    # keepalive no longer than the shortest ACK_TIMEOUT: the wait returned after a ping is the ping timeout, the ping's own
+    # retransmission deadline is not looked at (observation for C06, design/C08.md)
+    K = rng.randint(1, min(p[0] for p in params)) if kaf else 0
+    nmsg = rng.randint(1, 12)
+    pool = [rng.choice([0, 7, 300, 65535, rng.randrange(65536)]) for _ in range(rng.choice([1, 1, 2, 3]))]
+    mids = [rng.choice([100, 30000, 65000]) for _ in range(ns)]
+    near, evs, sent = [], [], []
+    with_hold = rng.random() < 0.2
+    with_fail = rng.random() < 0.15
+    ka_on = False
+    if kaf and rng.random() < 0.7:
+        evs.append("k:%d" % K)
+        ka_on = True
+        if rng.random() < 0.6:
+            evs.append("t:%d" % rng.choice([K * 1000, K * 1000, K * 1000 - 1, K * 1000 + 1, 2 * K * 1000]))
+    if with_hold and rng.random() < 0.5:
+        evs.append("h:%d" % rng.randrange(ns))
+    for k in range(nmsg):
+        s = rng.randrange(ns)
+        mids[s] += 1
+        mid = mids[s]
+        con = rng.random() < 0.8
+        r = rng.choice([0, 255, 128, rng.randrange(256)])
+        if tokf and rng.random() < 0.7:
+            evs.append("S:%d:%s:%d:%d:%d" % (s, "c" if con else "n", mid, r, rng.choice(pool)))
+        else:
+            evs.append("s:%d:%s:%d:%d" % (s, "c" if con else "n", mid, r))
+        sent.append((s, mid))
+        p = params[s]
+        T = py_calc_timeout(p[0], p[1], p[2], p[3], r)
+        for j in range(min(p[4], 3) + 1):
+            near += [max(0, T * 2 ** j - 1), T * 2 ** j, T * 2 ** j + 1]
+        if kaf:
+            near += [K * 1000 - 1, K * 1000, K * 1000 + 1, K * 1000 - 255 + r]
+        c = rng.random()
+        if c < 0.22:
+            evs.append("t:%d" % rng.choice(DELAYS[:12] + near[-8:]))
+        elif c < 0.34:
+            evs.append("n")
+        elif c < 0.42:
+            s2, m2 = rng.choice(sent) if rng.random() < 0.8 else (rng.randrange(ns), rng.randrange(65536))
+            evs.append("%s:%d:%d" % (rng.choice("aarrb"), s2, m2))
+        elif c < (0.62 if tokf else 0.46):
+            # a separate (NON) response: its token is one of the pool (cancels every outstanding message carrying it),
+            # the token of one message, or nobody's; its message id is the peer's own choice
+            s2, m2 = rng.choice(sent)
+            tok = rng.choice(pool) if tokf and rng.random() < 0.8 else rng.choice([m2, rng.randrange(65536)])
+            evs.append("o:%d:%d:%d" % (s2, rng.choice([m2, rng.randrange(65536)]), tok))
+        elif c < 0.62 + (0.14 if icmpf else 0.0):
+            evs.append("i:%d" % rng.randrange(ns))
+        elif c < 0.80 and kaf:
+            if not ka_on or rng.random() < 0.15:
+                ka_on = not ka_on
+                evs.append("k:%d" % (K if ka_on else 0))
+            else:
+                # let the session fall silent for (about) the keepalive time; a pong / ACK / nothing is the next fate
+                evs.append("t:%d" % rng.choice([K * 1000, K * 1000, K * 1000 + 1, K * 1000 - 1, 2 * K * 1000, 3 * K * 1000]))
+                if rng.random() < 0.5:
+                    evs.append(rng.choice(["n", "t:%d" % rng.choice([1, 50, 400, K * 1000])]))
+        elif c < 0.85 and with_hold:
+            evs.append("%s:%d" % (rng.choice("hu"), rng.randrange(ns)))
+        elif c < 0.88 and with_fail:
+            evs.append("f:%d" % rng.randrange(ns))
+    if with_hold:
+        for s in range(ns):
+            if rng.random() < 0.8:
+                evs.insert(rng.randint(len(evs) // 2, len(evs)), "u:%d" % s)
+    if icmpf and rng.random() < 0.5:
+        evs.insert(rng.randint(1, len(evs)), "i:%d" % rng.randrange(ns))
+    nf = rng.randint(0, 3 * nmsg)
+    fates = []
+    for _ in range(nf):
+        f = gen_fate(rng, near)
+        if kaf and rng.random() < 0.3:
+            f = "r%d" % rng.choice([0, 1, 50, 400, K * 1000 - 1, K * 1000, K * 1000 + 1])      # the pong
+        fates.append(f)
+    # with keepalive on the library never falls silent: bounded run
+    evs.append("g:%d" % rng.choice([10, 25, 40]) if kaf else "g:3000")
+    if with_hold:
+        evs += ["u:%d" % s for s in range(ns)] + ["g:%d" % (25 if kaf else 3000)]
     return "msg %s %s %s" % (",".join(sess), ",".join(fates) if fates else "-", " ".join(evs))
 
 
